@@ -92,8 +92,8 @@ fn c03_o4p_signed_announce_request() {
 }
 
 //@ ob: C02.O2b
-//@ tier: thorough
-//@ cap: 900
+//@ tier: quick
+//@ cap: 800
 //@ also: C03 C05
 //@ desc: malformed key lengths are rejected without panic and without any verification (key length in {0, 31, 33}) on both the request and the response path
 //@ bounds: key lengths 0, 31, 33 (one concrete call each), concrete contents, well-formed 64-byte signature, request/response path symbolic; unwind 34
